@@ -221,10 +221,11 @@ LOGGING_FLAVOURS = ("getitem", "sync_iter", "seq_abc", "set_abc") + ASYNC_FLAVOU
 
 class SrcPlan:
     __slots__ = ("name", "items", "flavour", "suspend", "aclose_suspends", "fresh", "aclose_mode", "falsy", "resilient",
-                 "iter_fault", "equal", "slow")
+                 "iter_fault", "equal", "slow", "dual")
 
     def __init__(self, name, items, flavour="list", suspend=(), aclose_suspends=0, fresh=False, aclose_mode=0,
-                 falsy=False, resilient=False, iter_fault=None, equal=False, slow=None):
+                 falsy=False, resilient=False, iter_fault=None, equal=False, slow=None, dual=False):
+        self.dual = dual  # (class-based) also offers the synchronous protocol, with another meaning: the async side counts
         self.slow = slow  # virtual seconds that pass inside the k-th pull (clock seam), or None
         self.resilient = resilient  # (async generator) handles exceptions thrown in at its yield and continues
         self.iter_fault = iter_fault  # exception type raised by __iter__ / __aiter__ itself
@@ -253,6 +254,7 @@ class SrcPlan:
             "iter_fault": self.iter_fault.__name__ if self.iter_fault is not None else None,
             "equal": self.equal,
             "slow": list(self.slow) if self.slow else None,
+            "dual": self.dual,
         }
 
 
@@ -581,6 +583,17 @@ class AIterCls:
         return self._do_aclose()
 
 
+class AIterDual(AIterCls):
+    """An async iterator that also offers the blocking protocol (think: a cursor with a sync fallback that reads only
+    what is buffered).  The library is asynchronous: the async side is the one that counts."""
+
+    __slots__ = ()
+
+    def __iter__(self):
+        self.src.world.log.append(("sync_side_used", self.src.name))
+        return iter(("SYNC-SIDE-OF-%s" % self.src.name,))
+
+
 class _AwaitableClose:
     """What a plain ``def aclose`` may return: an awaitable that is not a coroutine"""
 
@@ -712,7 +725,7 @@ def make_async_source(world, plan):
         obj = _agen_stream(src)
         src.agen = obj
     elif fl == "aiter_cls":
-        obj = AIterCls(src)
+        obj = AIterDual(src) if plan.dual else AIterCls(src)
     elif fl == "aiter_noclose":
         obj = AIterNoClose(src)
     elif fl == "aiter_full":
